@@ -167,6 +167,8 @@ def c10(ctx):
                 "compared byte for byte with Marshal!Render for every document and every one-step edit; output re-parsed and "
                 "re-marshalled (fixed point). Non-trivial = output with a separator or after an edit.")
     edit_replay(ctx, "marshal_q" if quick(ctx) else "del_t", "C10")
+    edit_replay(ctx, "bytes", "C10")          # every byte < 0x80 and multi-byte UTF-8 as key and as value
+    edit_replay(ctx, "nonfinite", "C10")      # SetFloat(NaN / +Inf / -Inf): marshalling must fail
     if not quick(ctx):
         edit_replay(ctx, "set_t", "C10")
     ctx.exhaustive = True
@@ -467,5 +469,41 @@ def c06(ctx):
             args.append("-nd")
         ctx.vh(args, timeout=7200)
         os.remove(r["dump"])
+    # every byte value, outside / inside a string / after a backslash, at EVERY offset of a 64-byte block
+    for cfg, nd in (("MC_Stage1_bytes.cfg", False), ("MC_Stage1_bytes_nd.cfg", True)):
+        r = ctx.tlc("MC_Stage1_bytes", cfg=cfg, dump="states", label=cfg, timeout=3000)
+        args = ["g-stage1", "-dump", r["dump"], "-expect", str(r["distinct"]), "-property", "C06", "-full", "-everyoffset"]
+        if nd:
+            args.append("-nd")
+        ctx.vh(args, timeout=7200)
+        os.remove(r["dump"])
     ctx.vh(["v-kernels", "-seed", str(ctx.seed), "-n", "1500" if q else "30000", "-property", "C06"], timeout=7200)
     ctx.exhaustive = True
+
+
+STREAMS = {
+    # cfg: (N, ends, isdoc, qcap)
+    "A": (15, "4,5,9,12", "1,0,1,0,1", 2),
+    "B": (11, "1,5,9,10,11", "0,1,1,0,0", 1),
+}
+
+
+@prop("C09")
+def c09(ctx):
+    ctx.rule = ("M: Stream.tla (reader with arbitrary short reads and a failure at any byte offset, line completion, per-chunk parsers "
+                "finishing in any order, bounded ordered queue, forwarder, close) model-checked for: delivered documents are a prefix of the "
+                "stream's documents in order, exactly one terminal error which is last, io.EOF with every document on a clean stream / the "
+                "reader's error otherwise, no empty value, and termination under fairness. G: every COMPLETE behaviour of the model "
+                "(reader fragmentation x failure offset x completion order) is replayed: a scripted io.Reader reproduces the reads, the "
+                "ChunkParsed hook gates the parsers into the chosen order, results are recycled through the reuse channel on every second "
+                "run, and the delivered sequence (values with their documents, terminal error, close) must equal the model's. V: 24 MiB "
+                "streams (several real 10 MiB chunks) under random fragmentation, slow/fast consumers, reader failure mid-stream. "
+                "Non-trivial = behaviour with >= 2 reads (>= 2 chunks or a boundary inside a line).")
+    q = quick(ctx)
+    for name, (n, ends, isdoc, qcap) in STREAMS.items():
+        r = ctx.tlc("MC_Stream", cfg="MC_Stream_%s.cfg" % name, dump="states", label="stream " + name, timeout=1200)
+        ctx.vh(["g-stream", "-dump", r["dump"], "-n", str(n), "-ends", ends, "-isdoc", isdoc, "-qcap", str(qcap),
+                "-max", "1200" if q else "0", "-property", "C09"], timeout=7200)
+        os.remove(r["dump"])
+    ctx.vh(["v-stream", "-seed", str(ctx.seed), "-runs", "2" if q else "9", "-property", "C09"], timeout=3000)
+    ctx.exhaustive = not q
